@@ -239,6 +239,15 @@ def main():
         payload['note'] = 'obligation is discharged on the unchanged tree (baseline/%s.json) and is not dischargeable on this tree' % prop
         violations.append((cid, payload))
         continue
+      unit_prefix = cid.split('/')[0] + '/'
+      if '/no-undeclared-exit.' in cid and any(b.startswith(unit_prefix) for b in baseline):
+        # the executor reached, on a path it found feasible, an exit with an exception the contract does not declare.  On the unchanged tree this
+        # unit was decided and had no such exit (its exception frame was closed); the exit is new and the solver cannot show the path
+        # infeasible: reported like an obligation that was discharged on the unchanged tree and no longer is
+        payload['note'] = ('the exception frame of this unit is closed on the unchanged tree (baseline/%s.json lists its obligations and no such exit); '
+                           'this exit is new and its path is not shown infeasible' % prop)
+        violations.append((cid, payload))
+        continue
       undecided.append((cid, 'solver returned unknown (%s) and no failing input was found' % fail.get('reason')))
       continue
     violations.append((cid, payload))
